@@ -205,6 +205,7 @@ contract(
     returns=HSet,
     requires=_pre,
     entry_assume=lambda c: dirs_axiom(c.obj_ids),  # definition of the spec set dirs_of(obj_ids)
+    assumes=['dirs_of(S), used in the invariants, is by definition the set of directory ids of S'],
     modifies=lambda c: [("HashFileDB.objs", c.dest), ("ObjectDBIndexBase.held", None), ("ObjectDBIndexBase.dirs", None)],
     locals=dict(dir_ids=HSet, file_ids=HSet, failed_ids=HSet, succeeded_dir_objs=TList(Tree)),
     invariants={0: _loop0_inv, 1: _loop1_inv, 2: _loop2_inv},
